@@ -267,6 +267,9 @@ pub fn sensitive_set() -> Vec<String> {
         "zzz9".to_string(),
         "ü💩".to_string(),
         "abab q".to_string(),
+        // letters whose case mapping depends on the language (Turkic dotted / dotless i)
+        "Ix".to_string(),
+        "İy".to_string(),
         // a long test case made of a repeated unit (length- and repetition-triggered code paths)
         "abcabcabcabcabcabc".to_string(),
         // a pair whose order flips under case folding ("Bc" < "ad" but "bc" > "ad")
@@ -497,7 +500,9 @@ pub fn default_cfg() -> Cfg {
 pub const SCENARIO_BASE: u64 = 10_000_000;
 /// 0..4: the four scenarios in the canonical process environment; 4..8: the same four under an odd one (Turkish
 /// locale, three CPUs); 8: scenario 0 under an address-space limit (failing allocations).
-pub const SCENARIOS: u64 = 12;
+pub const SCENARIOS: u64 = 13;
+/// Scenario 12: the whole systematic stratum once more, in the odd process environment.
+pub const SCENARIO_SYSTEMATIC_ODD_ENV: u64 = 12;
 pub const SCENARIO_KINDS: u64 = 4;
 /// Scenarios 8..12 run a large-automaton build with only this much address space (MiB) left above what the process
 /// has mapped when the build starts: allocations of that order fail. A failing allocation normally aborts the
@@ -527,6 +532,9 @@ fn spec(clients: Vec<Vec<Op>>, rng: &mut Rng, sites: Vec<String>, policy: &str) 
 }
 
 pub fn scenario_runs(k: u64, verif_seed: u64) -> Vec<RunSpec> {
+    if k == SCENARIO_SYSTEMATIC_ODD_ENV {
+        return systematic_runs(verif_seed);
+    }
     if k >= SCENARIO_MEMORY_LIMITED {
         // one client, two builds of automata with roughly a thousand states (the elimination matrix has states^2 cells)
         let mut rng = Rng::new(derive(verif_seed, &[0x4D454D, 0]));
